@@ -26,7 +26,11 @@ func vC11Reply() (msg []byte, netFn, cmd, body byte) {
 	cmd = vByte()
 	var data []byte
 	if netFn&1 == 1 {
-		data = append(data, 0x00) // completion code: normal
+		// any completion code that is not a temporary one (those are retried, not returned)
+		cc := vByte()
+		vAssume(cc != 0xC0)
+		vAssume(cc != 0xC3)
+		data = append(data, cc)
 	}
 	if netFn>>1 == 0x16 { // group extension 0x2c/0x2d
 		body = vByte()
